@@ -25,6 +25,12 @@ SKIP = {
 QUICK_WORDS = ["nth", "emit", "push", "remove", "length", "I", "J", "K", "/", "rem", "*", "bsl", "bsr", "abs", "neg", "round", ">int", "seek", ">b", "i16le", "bitstr-append"]
 
 
+# words whose failure depends on interpreter variables rather than on the operands: a fixed native scenario
+WORD_SCEN = {
+    "emit": ["intercept on", "eval 18446744073709551615 ! output-length", "eval |ff| emit"],
+}
+
+
 def cell_lines(m, names):
     return [cell_push_line(m, n) for n in names]
 
@@ -48,6 +54,8 @@ def word_lemma(word, target, immediate, arity=3, visible_loops=0):
                 if visible_loops:
                     src = "3 0 do " * visible_loops + word + " drop " + "loop " * visible_loops
                     return {"lines": ["eval " + src], "expect": [("no_panic",)]}
+                if word in WORD_SCEN:
+                    return {"lines": WORD_SCEN[word], "expect": [("no_panic",)]}
                 return {"lines": cell_lines(m, names) + ["eval " + word], "expect": [("no_panic",)]}
             L.fail(o, "`%s` must not panic: %s @ %s" % (word, (o.msg or "")[:100], (o.where or "")[:80]), cex=cex)
         L.witness(outs, lambda o: o.kind == "return", "`%s` returns on some path" % word)
